@@ -144,7 +144,7 @@ class C17(Check):
 
     def shards(self, tier):
         out = [("tagorder", c, 16, tier) for c in range(16)]
-        for scope, chunks, take in (("a", 96, 8 if tier == "quick" else 96), ("chain", 4, 4), ("tags", 32, 6 if tier == "quick" else 32)):
+        for scope, chunks, take in (("a", 96, 8 if tier == "quick" else 96), ("chain", 4, 4), ("tags", 32, 6 if tier == "quick" else 32), ("tags2", 8, 4 if tier == "quick" else 8)):
             for c in range(take):
                 out.append(("digest", scope, c, chunks, tier))
         for sp in sorted(p.name for p in SPECIMENS.iterdir() if p.is_dir()):
@@ -322,8 +322,10 @@ class C17(Check):
             ref = None
             n = 0
             for seed in seeds:
-                for cwd in ("/", "scratch"):
+                for cwd in ("/", "scratch", "outdir"):
                     for cache in ("cold", "warm", "stale", "half-updated"):
+                        if cwd == "outdir" and cache not in ("cold", "warm"):
+                            continue
                         n += 1
                         base = d / f"r{n}"
                         (base / "in").mkdir(parents=True)
@@ -332,7 +334,9 @@ class C17(Check):
                         cli.write_pretext(base / "in" / "map.agp", GEN_MAPS[mi])
                         os.utime(base / "in" / "asm.fa", (1_000_000, 1_000_000))
                         argv = ["-a", str(base / "in" / "asm.fa"), "-p", str(base / "in" / "map.agp"), "-o", str(base / "out" / "x.fa")]
-                        cw = "/" if cwd == "/" else str(base)
+                        cw = "/" if cwd == "/" else (str(base) if cwd == "scratch" else str(base / "out"))
+                        if cwd == "outdir":
+                            argv[-1] = "x.fa"  # the documented usage: a relative --output inside the curation directory
                         if cache != "cold":
                             fa = base / "in" / "asm.fa"
                             if cache in ("stale", "half-updated"):
@@ -340,7 +344,7 @@ class C17(Check):
                                 cli.write_fasta(fa, ALT_INPUTS[ii], width=11)
                                 os.utime(fa, (1_000_000, 1_000_000))
                             (base / "warmup").mkdir()
-                            worker("cli", {"argv": argv[:-1] + [str(base / "warmup" / "x.fa")], "cwd": cw}, seed=seed)
+                            worker("cli", {"argv": argv[:-1] + [str(base / "warmup" / "x.fa")], "cwd": "/" if cwd == "outdir" else cw}, seed=seed)
                             shutil.rmtree(base / "warmup", ignore_errors=True)
                             if not (base / "in" / "asm.fa.fai").exists():
                                 ctx.violation("cache-not-written", ["gencli", gi, seed, cwd, cache], "no .fai after the warm-up run")
